@@ -449,6 +449,16 @@ def check_solves(c, ps, bs, t, nodes, M, out):
                     continue
                 parts = [(np.real(rc), np.real(cf), np.real(ph)), (np.imag(rc), np.imag(cf), np.imag(ph))]
                 rhs_of = lambda rc_part: oracle_rhs_discrete(M, nb, lo, hi, fr(rc_part))
+                # the right-hand side the solve uses is the spline interpolating the (complex) nodal values of rho:
+                # both parts must be reproduced at the Greville points (the exact oracle above starts from these coefficients)
+                if 'colloc' not in first:
+                    first['colloc'] = np.array([np.asarray(ps._rspline[j].eval(np.asarray(ps._rspline.greville, dtype=float)), dtype=float) for j in range(nb)]).T     # the solver's own space and points
+                resid = float(np.max(np.abs(first['colloc'] @ np.asarray(rc) - rho_vals)))
+                out['n_or'] = out.get('n_or', 0) + 1
+                if not resid <= 1e-10 * max(1.0, float(np.max(np.abs(rho_vals)))):
+                    _fail(out, 'DiffEqSolver._solveMode:rho-interpolant', 'mode %d: the spline the solve takes as right-hand side misses the nodal values of rho by %.3g '
+                          '(real part off by %.3g, imaginary part off by %.3g)' % (m, resid, float(np.max(np.abs((first['colloc'] @ np.asarray(rc) - rho_vals).real))),
+                                                                                    float(np.max(np.abs((first['colloc'] @ np.asarray(rc) - rho_vals).imag)))))
             else:
                 f = RHOF[kind]
                 try:
